@@ -54,10 +54,11 @@ const (
 	FMMapErr                     // MMap fails
 	FReadErr                     // ReadAt fails
 	FMUnmapErr                   // MUnmap fails (after unmapping)
+	FUnlockErr                   // Unlock fails (lock stays held)
 	NumFaultKinds
 )
 
-var faultNames = [...]string{"write_err", "write_short", "sync_err", "truncate_err", "size_err", "mmap_err", "read_err", "munmap_err"}
+var faultNames = [...]string{"write_err", "write_short", "sync_err", "truncate_err", "size_err", "mmap_err", "read_err", "munmap_err", "unlock_err"}
 
 func (k FaultKind) String() string { return faultNames[k] }
 
@@ -76,6 +77,8 @@ func (k FaultKind) class() int {
 		return 4
 	case FReadErr:
 		return 5
+	case FUnlockErr:
+		return 7
 	default:
 		return 6
 	}
@@ -126,7 +129,7 @@ type Disk struct {
 	YieldIO bool
 
 	faults    []Fault
-	calls     [7]int
+	calls     [8]int
 	Fired     [NumFaultKinds]int
 	armed     bool
 	ExtentMax int64
@@ -157,7 +160,7 @@ func (d *Disk) Snapshot() []byte { return append([]byte(nil), d.cache...) }
 // SetFaults arms a new fault plan; call counters restart at zero.
 func (d *Disk) SetFaults(fs []Fault) {
 	d.faults = append([]Fault(nil), fs...)
-	d.calls = [7]int{}
+	d.calls = [8]int{}
 	d.armed = len(fs) > 0
 }
 
@@ -176,7 +179,7 @@ func (d *Disk) FaultsPending() bool {
 
 // Calls returns the number of calls seen per class since arming
 // (0 write, 1 sync, 2 truncate, 3 size, 4 mmap, 5 read, 6 munmap).
-func (d *Disk) Calls() [7]int { return d.calls }
+func (d *Disk) Calls() [8]int { return d.calls }
 
 func (d *Disk) fail(kinds ...FaultKind) (FaultKind, bool) {
 	cls := kinds[0].class()
@@ -250,12 +253,19 @@ func (d *Disk) Lock(exclusive, blocking bool) error {
 }
 
 func (d *Disk) Unlock() error {
+	if _, ok := d.fail(FUnlockErr); ok {
+		return injected("unlock")
+	}
 	if !d.locked {
 		return errors.New("simdisk: not locked")
 	}
 	d.locked = false
 	return nil
 }
+
+// ForceUnlock releases the simulated path lock (what the operating system does
+// when the process holding a lock exits).
+func (d *Disk) ForceUnlock() { d.locked = false }
 
 // Locked reports the state of the simulated path lock.
 func (d *Disk) Locked() bool { return d.locked }
